@@ -125,7 +125,7 @@ def hexf(s):
 # ------------------------------------------------------------------ driver
 class Driver:
     def __init__(self, variant="main", exe="driver", timeout=60.0, env=None):
-        self.path = os.path.join(BUILD, variant, "drv", exe)
+        self.path = os.path.join(BUILD, variant + os.environ.get("VERIF_BUILD_TAG", ""), "drv", exe)
         self.timeout = timeout
         self.env = dict(os.environ)
         self.env["ASAN_OPTIONS"] = ASAN_OPTIONS
